@@ -102,8 +102,14 @@ FromFormat(b) == {Some(IF Len(b) >= 1 /\ b[Len(b)] = 0 THEN b ELSE Raw(b))}
 FromStrChecked(b) == {IF NulOnlyAtEnd(b) THEN Some(b) ELSE PANIC}
 \* path_join_fmt with arbitrary formatted text s (may contain NULs): for NUL-free text it is
 \* PathJoin; otherwise only the C10 obligation (ends in NUL) is demanded.
+\* A text that is terminated already (its only NUL is its last byte) is the documented
+\* "more efficient" spelling of the same text: the result must be terminated exactly once
+\* and, when the text proper is non-empty, be the join with that text.
 PathJoinFmtOk(a, s, r) ==
     IF ~HasNul(s) THEN r \in PathJoin(a, s)
+    ELSE IF NulOnlyAtEnd(s) /\ ~HasNul(a)
+    THEN /\ Len(r) >= 2 /\ r[1] = 1 /\ WellFormed(Tail(r))
+         /\ (Len(s) >= 2 => r \in PathJoin(a, Chop(s)))
     ELSE Len(r) >= 2 /\ r[1] = 1 /\ EndsInNul(Tail(r))
 
 \* C10 obligation on any produced value r = Some(raw), inputs NUL-free => exactly one NUL
